@@ -11,6 +11,19 @@ def _has(e, pred):
     return any(_has(x, pred) for x in e if isinstance(x, tuple))
 
 
+def _only_atom(e, pname):
+    """e is the parameter `pname` up to value-preserving conversions (casts, From::from)"""
+    while isinstance(e, tuple) and e:
+        if e[0] == "cast":
+            e = e[2]
+        elif e[0] in ("call", "callat") and (e[1] if e[0] == "call" else e[2]) in ("from", "into") \
+                and len(e[2] if e[0] == "call" else e[3]) == 1:
+            e = (e[2] if e[0] == "call" else e[3])[0]
+        else:
+            break
+    return e[0] == "param" and e[2] == pname
+
+
 def rules(rep, prog):
     f = prog.fn_by_name("crop_box::CropBox::fit_src_into_dst_size")
     rep.touch(f)
@@ -110,8 +123,8 @@ def rules(rep, prog):
         rep.floor(r_span, "ratio branches", len(dw), 3)
         for k, bb in enumerate(sorted(dw)):
             w, h = dw[bb], dh.get(bb)
-            full_w = fmt(w) == "(src_width as f64)"
-            full_h = h is not None and fmt(h) == "(src_height as f64)"
+            full_w = _only_atom(w, "src_width")
+            full_h = h is not None and _only_atom(h, "src_height")
             if full_w or full_h:
                 rep.ok(r_span, "branch#%d" % k, f.loc, "crop = (%s, %s)" % (
                     fmt(w)[:50], fmt(h)[:50] if h else "?"))
@@ -143,4 +156,4 @@ def run(rep, tier):
     cfgs = ["x86"] if tier == "quick" else ["x86", "arm", "wasm"]
     for cfg, prog in programs(cfgs):
         rep.set_cfg(cfg)
-        rules(rep, prog)
+        rep.call(rules, rep, prog)
